@@ -74,6 +74,7 @@ RISKY = {
     "d-delimiter-chr-without-val",
     "two-malformed-radicals",
     "d-default-delimiter-over-nested-explicit-delimiter",
+    "malformed-radical-under-rad-with-closing-bracket-in-degree",
 }
 
 
@@ -299,7 +300,11 @@ def _render1(n: dict, a: Analysis, nd: bool, collect: bool) -> str:
     if k == "m":
         rows = [" & ".join(rs(cell) for cell in row) for row in n["rows"]]
         return r"\begin{matrix}" + r" \\ ".join(rows) + r"\end{matrix}"
-    S = [(name, rs(ch)) for name, ch in n["s"]]          # rendered in XML order == output order
+    S, marks = [], []                                     # rendered in XML order == output order
+    for name, ch in n["s"]:
+        m0 = a.malformed
+        S.append((name, rs(ch)))
+        marks.append(a.malformed - m0)
     by = {}
     for name, txt in S:
         by.setdefault(name, []).append(txt)
@@ -318,6 +323,10 @@ def _render1(n: dict, a: Analysis, nd: bool, collect: bool) -> str:
         if collect:
             if e.strip() in ("(", "[", "{"):
                 a.malformed += 1
+            # the converter evaluates m:e before m:deg but prints m:deg first
+            if any(mk for (name, _), mk in zip(n["s"], marks) if name == "e") and any(
+                    d["k"] == "r" and any(c in d["t"] for c in ")]}") for name, ch in n["s"] if name == "deg" for d in walk(ch)):
+                a.risky.add("malformed-radical-under-rad-with-closing-bracket-in-degree")
             if deg and o.get("pr") == 2:
                 a.unclaimed.add("rad:degHide-with-nonempty-degree")
             a.features.add("rad:" + ("deg" if deg else ("emptydeg" if "deg" in by else "nodeg")) + f":pr{o.get('pr', 0)}")
@@ -495,6 +504,14 @@ def twin(spec: dict, feature: str, tok: Tokens) -> dict:
                     seen += 1
                     if seen > 1:
                         e[0]["t"] = tok()
+    elif feature == "malformed-radical-under-rad-with-closing-bracket-in-degree":
+        for n in walk(t["c"]):
+            if n["k"] == "rad":
+                for name, ch in n["s"]:
+                    if name == "deg":
+                        for d in walk(ch):
+                            if d["k"] == "r":
+                                d["t"] = d["t"].replace(")", "+").replace("]", "+").replace("}", "+")
     elif feature == "d-default-delimiter-over-nested-explicit-delimiter":
         for n in walk(t["c"]):
             if n["k"] == "d" and (n["o"].get("beg") is None or n["o"].get("end") is None):
